@@ -5,16 +5,26 @@
   "stub_note": "registration callout, latch_and_call, cancel callout, refs_unregister, unote_resume, install: stubs that record order and may cancel the source (client code) or complete the deletion" }
 VERIF*/
 #ifdef VERIF_PRE
-extern const volatile void *H_flags_p, *H_state_p, *H_pending_p; extern unsigned long long H_flags_now, H_du_state, H_pending_now; extern unsigned long long H_handlers_base; extern _Bool H_have_handlers;
+extern const volatile void *H_flags_p, *H_state_p, *H_pending_p; extern unsigned long long H_flags_now, H_du_state, H_pending_now; extern unsigned long long H_handlers_base; extern _Bool H_have_handlers; extern const volatile void *H_cfg_p; extern _Bool H_cfg_pending;
 #define __VERIF_RELY(p, v) (((const volatile void *)(p) != H_flags_p || (unsigned long long)(v) == H_flags_now) && \
 	((const volatile void *)(p) != H_state_p || (unsigned long long)(v) == H_du_state) && \
 	((const volatile void *)(p) != H_pending_p || (unsigned long long)(v) == H_pending_now) && \
+	((const volatile void *)(p) != H_cfg_p || (((unsigned long long)(v)) != 0) == H_cfg_pending) && \
 	(((unsigned long long)(p) - H_handlers_base) >= 24 || (((unsigned long long)(v) != 0) == H_have_handlers)))
 #else
+#ifdef H_TIMER_VARIANT
+#define H_DR_TIMER_SIZED 1
+#endif
 #include "contracts/C15/source_common.h"
+const volatile void *H_cfg_p; _Bool H_cfg_pending, H_cfg_pending0, H_bad_cfg; unsigned H_configures;
 const volatile void *H_flags_p, *H_state_p, *H_pending_p; unsigned long long H_flags_now, H_du_state, H_pending_now;
 struct dispatch_lane_s H_tq, H_other; dispatch_queue_t H_cur; unsigned long long H_handlers_base; _Bool H_have_handlers; /* all three handler slots set / all clear */
 unsigned H_latches, H_cancel_callouts, H_resumes, H_unregisters, H_reg_callouts; _Bool H_bad_latch, H_bad_cancel, H_bad_resume, H_bad_unreg, H_event_after_cancel_callout;
+#ifdef H_TIMER_VARIANT
+#define H_IS_TIMER_REQ (H_dru.c.du_is_timer && H_cfg_p == &H_dru.t.dt_pending_config)
+#else
+#define H_IS_TIMER_REQ (!H_dr.du_is_timer)
+#endif
 #define CANCELED_NOW ((H_flags_now & (DSF_CANCELED | DQF_RELEASED)) != 0)
 static inline dispatch_queue_t _dispatch_queue_get_current(void) { return H_cur; }
 static inline dispatch_wlh_t _dispatch_get_event_wlh(void) { return DISPATCH_WLH_ANON; }
@@ -29,6 +39,8 @@ static void _dispatch_source_latch_and_call(dispatch_source_t ds, dispatch_queue
 { (void)ds; (void)flags; H_latches++;
   /* the event handler may be invoked only on the target queue, with data pending, and NOT once the source is cancelled */
   if (cq != (dispatch_queue_t)&H_tq || CANCELED_NOW || H_pending_now == 0) H_bad_latch = 1;
+  /* C11: nothing is delivered under the OLD settings while a new timer configuration is waiting to be applied */
+  if (H_cfg_pending) H_bad_latch = 1;
   if (H_cancel_callouts) H_event_after_cancel_callout = 1;
   H_pending_now = ND_BOOL() ? 0 : ND(unsigned long long); if (ND_BOOL()) H_flags_now |= DSF_CANCELED; }
 static void _dispatch_source_cancel_callout(dispatch_source_t ds, dispatch_queue_t cq, dispatch_invoke_flags_t flags)
@@ -40,17 +52,21 @@ static void _dispatch_source_refs_unregister(dispatch_source_t ds, uint32_t opti
 void _dispatch_unote_resume(dispatch_unote_t du) { (void)du; H_resumes++; if (CANCELED_NOW || H_cur != (dispatch_queue_t)&_dispatch_mgr_q) H_bad_resume = 1; }
 void _dispatch_event_loop_drain(uint32_t flags) { (void)flags; }
 static inline bool _dispatch_wlh_should_poll_unote(dispatch_unote_t du) { (void)du; return ND_BOOL(); }
-void _dispatch_timer_unote_configure(dispatch_timer_source_refs_t dt) { (void)dt; }
+/* applying a pending configuration happens on the manager queue only (it re-sorts the timer heaps), takes the configuration and drops the fires counted under the old one */
+void _dispatch_timer_unote_configure(dispatch_timer_source_refs_t dt) { (void)dt; H_configures++; if (H_cur != (dispatch_queue_t)&_dispatch_mgr_q || !H_cfg_pending) H_bad_cfg = 1; H_cfg_pending = 0; H_pending_now = 0; }
 VERIF_CONTRACT(dispatch_queue_wakeup_target_t, _dispatch_source_invoke2, (dispatch_source_t ds, dispatch_invoke_context_t dic, dispatch_invoke_flags_t flags, uint64_t *owned),
-  REQ(ds == &H_ds && ds->ds_refs == &H_dr && ds->do_targetq == (dispatch_queue_t)&H_tq && !H_dr.du_is_timer && !H_dr.du_is_direct)
+  REQ(ds == &H_ds && ds->ds_refs == &H_dr && ds->do_targetq == (dispatch_queue_t)&H_tq && H_IS_TIMER_REQ && !H_dr.du_is_direct && H_configures == 0 && !H_bad_cfg && H_cfg_pending == H_cfg_pending0)
   REQ(H_flags_p == &H_ds.dq_atomic_flags && H_state_p == &H_dr.du_state && H_pending_p == &H_dr.ds_pending_data)
   REQ(H_handlers_base == (unsigned long long)&H_dr.ds_handler[0] && VIMPL(H_flags_now & DSF_DELETED, H_du_state == 0))
   REQ(H_latches == 0 && H_cancel_callouts == 0 && H_resumes == 0 && H_unregisters == 0 && !H_bad_latch && !H_bad_cancel && !H_bad_resume && !H_bad_unreg && !H_event_after_cancel_callout)
-  ASG(H_ds.ds_is_installed, H_flags_now, H_du_state, H_pending_now, H_latches, H_cancel_callouts, H_resumes, H_unregisters, H_reg_callouts, H_bad_latch, H_bad_cancel, H_bad_resume, H_bad_unreg, H_event_after_cancel_callout, VERIF_GHOST)
+  ASG(H_ds.ds_is_installed, H_flags_now, H_du_state, H_pending_now, H_latches, H_cancel_callouts, H_resumes, H_unregisters, H_reg_callouts, H_bad_latch, H_bad_cancel, H_bad_resume, H_bad_unreg, H_event_after_cancel_callout, H_cfg_pending, H_bad_cfg, H_configures, VERIF_GHOST)
   /* once dispatch_source_cancel has been called from the source's own handlers / target queue, the event handler is not invoked again */
   ENS(event_handler_never_invoked_once_cancelled, !H_bad_latch && H_latches <= 1)
   /* the cancel handler runs at most once per invocation, on the target queue, after cancellation AND after unregistration completed */
   ENS(cancel_handler_only_after_cancel_and_unregistration_on_target_queue, !H_bad_cancel && H_cancel_callouts <= 1)
+  /* C11 "a timer whose settings are replaced follows only the new settings": a pending configuration is applied on the manager queue before anything else is
+   * delivered; a drain on any other queue hands the source to the manager first */
+  ENS(a_pending_timer_configuration_is_applied_on_the_manager_before_any_delivery, !H_bad_cfg && H_configures <= 1 && !H_bad_latch)
   ENS(no_event_handler_after_the_cancel_handler, !H_event_after_cancel_callout)
   ENS(never_rearmed_once_cancelled, !H_bad_resume)
   ENS(unregistration_not_repeated_once_deleted, !H_bad_unreg)
@@ -65,7 +81,12 @@ void harness(void)
 	H_handlers_base = (unsigned long long)&H_dr.ds_handler[0]; H_have_handlers = ND_BOOL();
 	H_flags_now = ND(uint32_t); H_du_state = ND(unsigned long long); H_pending_now = ND(unsigned long long);
 	if (H_flags_now & DSF_DELETED) H_du_state = 0;
-	H_ds.do_targetq = (dispatch_queue_t)&H_tq; H_dr.du_is_timer = 0; H_dr.du_is_direct = 0; H_ds.ds_is_installed = ND_BOOL();
+	H_ds.do_targetq = (dispatch_queue_t)&H_tq; H_dr.du_is_direct = 0; H_ds.ds_is_installed = ND_BOOL(); H_configures = 0; H_bad_cfg = 0;
+#ifdef H_TIMER_VARIANT
+	H_dru.c.du_is_timer = 1; H_dru.c.du_is_direct = 0; H_cfg_p = &H_dru.t.dt_pending_config; H_cfg_pending0 = ND_BOOL(); H_cfg_pending = H_cfg_pending0; H_dru.t.du_timer_flags = ND(uint8_t);
+#else
+	H_dr.du_is_timer = 0; H_cfg_p = 0; H_cfg_pending0 = 0; H_cfg_pending = 0;
+#endif
 	H_tq.do_targetq = ND_BOOL() ? (dispatch_queue_t)&H_other : 0; H_tq.dq_priority = ND(dispatch_priority_t);
 	switch (ND(unsigned) % 3) { case 0: H_cur = (dispatch_queue_t)&H_tq; break; case 1: H_cur = (dispatch_queue_t)&_dispatch_mgr_q; break; default: H_cur = (dispatch_queue_t)&H_other; }
 	H_latches = H_cancel_callouts = H_resumes = H_unregisters = H_reg_callouts = 0; H_bad_latch = H_bad_cancel = H_bad_resume = H_bad_unreg = H_event_after_cancel_callout = 0;
